@@ -24,11 +24,12 @@ import (
 // Keys 0..5: one per length. Keys 6..9 are twins that a recycled object could confuse with a base key:
 // 6: 20 bytes, different content, same CRC-32 as key 2; 7: key 2 reversed (same length, byte sum and xor);
 // 8: key 4 (65 B) with the last byte changed (same first block); 9: key 3 (64 B) with the first byte changed.
-var c18KeyLens = []int{0, 1, 20, 64, 65, 300, 20, 20, 65, 64}
+// Keys 10..13: 763 / 764 / 1024 / 4096 bytes (grouped with key 5 for the pairing rule below).
+var c18KeyLens = []int{0, 1, 20, 64, 65, 300, 20, 20, 65, 64, 763, 764, 1024, 4096}
 
 const c18BaseKeys = 6
 
-var c18TwinOf = map[int]int{6: 2, 7: 2, 8: 4, 9: 3}
+var c18TwinOf = map[int]int{6: 2, 7: 2, 8: 4, 9: 3, 10: 5, 11: 5, 12: 5, 13: 5}
 
 // Chunks 0..3 are the script alphabet; 4..6 exist for the 64 KiB histories.
 var c18ChunkLens = []int{0, 1, 63, 65, 32768, 65535, 65536}
@@ -36,7 +37,7 @@ var c18ChunkLens = []int{0, 1, 63, 65, 32768, 65535, 65536}
 const c18ScriptChunks = 4
 
 func c18Key(i int) []byte {
-	if b, ok := c18TwinOf[i]; ok {
+	if b, ok := c18TwinOf[i]; ok && i < 10 {
 		k := c18Key(b)
 		switch i {
 		case 6:
@@ -140,7 +141,7 @@ func c18Exec(k c18Case) (*sched.Result, []explore.Finding, string) {
 			newHash, size, bs = sha256.New, sha256.Size, sha256.BlockSize
 		}
 		var slots [2]*liveHMAC
-		keyBuf := make([]byte, 512) // the caller keeps its keys in one buffer and rewrites it in place
+		keyBuf := make([]byte, 4096) // the caller keeps its keys in one buffer and rewrites it in place
 		type kept struct {
 			got, want []byte
 			step      int
